@@ -84,3 +84,21 @@ pub fn from_cfb_glue_two_modules_crossed_streams() {
     let cfb = img::image_glue(&x, &y, &junk, true);
     check_project(cfb, &x, &[y[0], y[1], y[0], y[1], y[0]]);
 }
+
+/// decompress_stream replaced by the model D (img::decompress_model: D(0x01 ++ d) = d): stream contents fully symbolic
+/// (3 junk bytes, 3 + 2 source bytes); decoy streams named "A"/"B" present
+#[kani::proof]
+#[kani::unwind(7)]
+#[kani::stub(read_dir_information, read_dir_information_model)]
+#[kani::stub(Reference::from_stream, references_model)]
+#[kani::stub(read_modules, read_modules_model)]
+#[kani::stub(codepage::to_encoding, img::to_encoding_1252_stub)]
+#[kani::stub(crate::cfb::decompress_stream, img::decompress_model)]
+pub fn from_cfb_glue_wiring() {
+    let x: [u8; 3] = kani::any();
+    let y: [u8; 2] = kani::any();
+    let junk: [u8; 3] = kani::any();
+    kani::cover!(x[0] != y[0] && junk[0] == 0x01);
+    let cfb = img::image_model(&x, &y, &junk, true);
+    check_project(cfb, &x, &y);
+}
